@@ -25,6 +25,8 @@ partial def parseExpr : Sexp → Option Expr
   | .list [.atom "un", .atom op, e] => do pure (.un (← parseUn op) (← parseExpr e))
   | .list [.atom "bin", .atom op, a, b] => do pure (.bin (← parseBin op) (← parseExpr a) (← parseExpr b))
   | .list [.atom "cmp", .atom op, a, b] => do pure (.cmp (← parseBin op) (← parseExpr a) (← parseExpr b))
+  | .list [.atom "chain3", .atom op1, .atom op2, a, b, c] => do
+    pure (.chain3 (← parseBin op1) (← parseBin op2) (← parseExpr a) (← parseExpr b) (← parseExpr c))
   | .list [.atom "and", a, b] => do pure (.and (← parseExpr a) (← parseExpr b))
   | .list [.atom "or", a, b] => do pure (.or (← parseExpr a) (← parseExpr b))
   | .list [.atom "assign", x, e] => do pure (.assign (← x.nat?) (← parseExpr e))
